@@ -545,6 +545,9 @@ class Spectrum(numpy.ma.masked_array):
         # Create new spectrum
         new_data = np.zeros(shape=[n+1 for n in new_ns])
         new_fs = Spectrum(new_data, pop_ids=new_pop_ids)
+        # Combining populations preserves the derived allele count of each
+        # entry, so the result of combining a folded spectrum is folded.
+        new_fs.folded = self.folded
         # Copy over extrapolation info
         new_fs.extrap_x = self.extrap_x
 
